@@ -230,7 +230,7 @@ class Profile:
                 else:
                     try:
                         if isinstance(self.__dict__[n], bool):
-                            self.__dict__[n] = not (v in ["False", "0"])
+                            self.__dict__[n] = self._parse_bool(v)
                         else:
                             typ = type(self.__dict__[n])
                             self.__dict__[n] = typ(v)
@@ -240,6 +240,19 @@ class Profile:
         ps = "; ".join(f"{n}={v}" for n, v in params.items())
         log.debug(f"[params] {ps}")
         return params
+
+    @staticmethod
+    def _parse_bool(v) -> bool:
+        """Parse a boolean parameter: true/false (any case), 1/0 or a real boolean."""
+        if isinstance(v, bool):
+            return v
+        if isinstance(v, int) and v in (0, 1):
+            return bool(v)
+        if isinstance(v, str) and v.strip().lower() in ("true", "1"):
+            return True
+        if isinstance(v, str) and v.strip().lower() in ("false", "0"):
+            return False
+        raise ValueError(v)
 
     @staticmethod
     def load(gene, profile, cn_region=None, **params):
